@@ -118,6 +118,15 @@ func AllLinks(with []string, without []string) []string {
 				ok = false
 			}
 		}
+		// links tagged "extra" are only used by the programs that name them (they are in no random pool)
+		if l.HasTag("extra") {
+			ok = false
+			for _, t := range with {
+				if t == "extra" {
+					ok = true
+				}
+			}
+		}
 		if ok {
 			out = append(out, n)
 		}
